@@ -24,7 +24,7 @@ struct WorldH : World {
   Json agent_script;              // list of {out, code, crash}
   size_t agent_no = 0;
   std::map<int, std::string> idseq;   // per child pid: order of setgroups/setgid/setuid calls before exec
-  bool c11 = false; int newu_status = -1; std::string assign_src; bool cdb_damaged = false; bool lookup_fault = false;
+  bool c11 = false, c09r = false; int newu_status = -1; std::string assign_src; bool cdb_damaged = false; bool lookup_fault = false;
 
   void setup() override {
     t.build(k, conf);
@@ -40,7 +40,7 @@ struct WorldH : World {
     k->put_exec(t.home + "/bin/qmail-local", "stub:agent", 0711);
     k->put_exec(t.home + "/bin/qmail-remote", "stub:agent", 0711);
     k->natives["agent"] = [this](int argc, char **argv) { return agent_main(argc, argv); };
-    for (auto &o : plan->knobs["oracles"].a) if (o.str() == "c11") c11 = true;
+    for (auto &o : plan->knobs["oracles"].a) { if (o.str() == "c11") c11 = true; if (o.str() == "c09") c09r = true; }
     if (plan->knobs.has("passwd")) {
       for (auto &u : plan->knobs["passwd"].a) {
         k->passwd.push_back(PwEnt{u.gets("name"), (uint32_t)u.geti("uid"), (uint32_t)u.geti("gid"), u.gets("home"), "/bin/sh"});
@@ -78,7 +78,9 @@ struct WorldH : World {
     if (p->fds.size() > 0 && p->fds[0].of) { OFile *of = p->fds[0].of; a.fd0_regular = of->kind == O_FILE && of->ino && of->ino->type == T_REG; a.fd0_owner = of->ino ? of->ino->uid : 0; a.fd0_path = of->path; }
     a.pid = p->pid; a.idseq = idseq[p->pid];
     agents.push_back(a);
-    Json sc = agent_script.a.empty() ? Json::obj() : agent_script.a[agent_no++ % agent_script.a.size()];
+    // which script? in C09 mode the recipient "u<k>@..." names it, otherwise in order of running
+    size_t pick = agent_no++; if (c09r && a.argv.size() >= 4 && a.argv[3].size() > 1 && a.argv[3][0] == 'u') pick = (size_t)atoi(a.argv[3].c_str() + 1);
+    Json sc = agent_script.a.empty() ? Json::obj() : agent_script.a[pick % agent_script.a.size()];
     std::string o = sc.gets("out", "K ok\n");
     int64_t lat = sc.geti("lat", 0);
     if (lat) k->block([] { return false; }, k->clock + lat, false);
@@ -293,7 +295,36 @@ struct WorldH : World {
     for (auto &ag : agents) if (!ag.used) { violate("C11.identity", "qmail-local was started for \"" + printable(ag.argv.size() >= 5 ? ag.argv[4] : std::string("?")) + "\" which no command asked for"); break; }
   }
 
+  // C09 (spawner leg): the verdict forwarded to the queue manager never upgrades a refusal, a crash or an unparseable result
+  void finish_c09r() {
+    struct Cmd { int delnum; std::string recip; };
+    std::vector<Cmd> cmds; size_t i = 0;
+    while (i < stream.size()) { size_t a = stream.find('\0', i + 1); if (a == std::string::npos) break; size_t b = stream.find('\0', a + 1); if (b == std::string::npos) break; size_t c = stream.find('\0', b + 1); if (c == std::string::npos) break; cmds.push_back(Cmd{(unsigned char)stream[i], stream.substr(b + 1, c - b - 1)}); i = c + 1; }
+    if (!helper_done) { violate("C09.rspawn-did-not-finish", "qmail-rspawn still running"); return; }
+    std::map<int, std::string> reports; { const std::string &o = out->data; size_t p = 1; while (p < o.size()) { size_t z = o.find('\0', p + 1); if (z == std::string::npos) break; reports[(unsigned char)o[p]] = o.substr(p + 1, z - p - 1); p = z + 1; } }
+    for (auto &c : cmds) {
+      if (c.recip.size() < 2 || c.recip[0] != 'u') continue;
+      size_t idx = (size_t)atoi(c.recip.c_str() + 1); if (agent_script.a.empty()) continue;
+      const Json &sc = agent_script.a[idx % agent_script.a.size()];
+      std::string o = sc.gets("out"); int code = (int)sc.geti("code", 0); bool crash = sc.getb("crash", false);
+      std::string rep = reports.count(c.delnum) ? reports[c.delnum] : "";
+      res->nontrivial = true; k->probe("c09_spawner_verdicts");
+      if (rep.empty()) { violate("C09.rspawn-no-report", "no report for delivery " + std::to_string(c.delnum)); return; }
+      char got = rep[0];
+      // is success justified by qmail-remote(8)'s output grammar?
+      bool k_ok = !crash && code == 0 && !o.empty() && o[0] != 's' && o[0] != 'h';
+      if (k_ok) { char first = 0; size_t j = 0; for (size_t q = 0; q < o.size(); q++) if (!o[q]) { char s0 = o[j]; if (s0 == 'K' || s0 == 'Z' || s0 == 'D') { first = s0; break; } j = q + 1; } k_ok = first == 'K'; }
+      std::string ctx = "qmail-remote " + std::string(crash ? "crashed" : "exited " + std::to_string(code)) + " printing \"" + printable(o, 80) + "\"; qmail-rspawn forwarded \"" + printable(rep, 80) + "\"";
+      if (got == 'K' && !k_ok) { violate("C09.rspawn-upgrades-to-success", ctx); return; }
+      if (crash && got != 'Z') { violate("C09.rspawn-crash-not-temporary", ctx); return; }
+      if (!crash && code == 111 && got != 'Z') { violate("C09.rspawn-111-not-temporary", ctx); return; }
+      if (!crash && code == 0 && k_ok && got != 'K') { violate("C09.rspawn-loses-success", ctx); return; }
+      if (got != 'K' && got != 'Z' && got != 'D') { violate("C09.rspawn-report-format", ctx); return; }
+    }
+  }
+
   void finish() override {
+    if (c09r) { finish_c09r(); Hash64 h0; h0.str(out->data); res->state_hash = h0.get(); return; }
     if (c11) finish_c11(); else if (mode == "clean") finish_clean(); else finish_spawner();
     Hash64 h; h.str(out->data); res->state_hash = h.get();
   }
